@@ -77,6 +77,21 @@ func (g *Gen) declaredLocs(env *Env, sp *FuncSpec) []modLoc {
 			case "object":
 				p := g.eval(env, e.Args[0])
 				out = append(out, modLoc{kind: "object", addr: p.S, item: item, expr: e})
+			case "all":
+				// all(T.f): field f of every object of struct type T (used with an explicit frame postcondition)
+				sel := e.Args[0]
+				if sel.Op != "sel" || sel.Args[0].Op != "ident" {
+					unsup("modifies all(T.f) expects Type.field")
+				}
+				t := g.P.resolveType(sel.Args[0].Name, sp.Pkg)
+				if t == nil || structOf(t) == nil {
+					unsup("modifies all(): unknown struct type %s", sel.Args[0].Name)
+				}
+				f, ok := fieldByName(t, sel.Name)
+				if !ok {
+					unsup("modifies all(): no field %s", sel.Name)
+				}
+				out = append(out, modLoc{kind: "fieldall", hname: "H|" + typeName(f.owner) + "|" + f.v.Name(), item: item, expr: e})
 			case "mapcontents":
 				m := g.eval(env, e.Args[0])
 				out = append(out, modLoc{kind: "map", addr: m.S, item: item, expr: e})
@@ -167,6 +182,10 @@ func (g *Gen) allowedField(st *State, hname, addr string) string {
 		case "field":
 			if l.hname == hname || strings.HasPrefix(hname, l.hname+"#") {
 				alts = append(alts, eq(addr, l.addr))
+			}
+		case "fieldall":
+			if l.hname == hname || strings.HasPrefix(hname, l.hname+"#") {
+				return "true"
 			}
 		case "object":
 			alts = append(alts, g.insideObject(addr, l.addr))
@@ -300,6 +319,13 @@ func (g *Gen) frameCheckCall(st *State, pre *State, c *ssa.Call, sp *FuncSpec, e
 			}
 		case "field":
 			goal = g.allowedField(st, l.hname, l.addr)
+		case "fieldall":
+			goal = "false"
+			for _, o := range g.ownLocs() {
+				if o.kind == "fieldall" && o.hname == l.hname {
+					goal = "true"
+				}
+			}
 		case "object":
 			alts := []string{g.freshAddr(l.addr)}
 			for _, o := range g.ownLocs() {
